@@ -1,4 +1,4 @@
-#!/venv/bin/python
+#!/opt/veriftools/pyvenv/bin/python
 """Regenerate /verif/MANIFEST.json from sa/manifest_data.py and validate it against the schema."""
 import json, os, sys
 sys.path.insert(0, os.path.dirname(os.path.dirname(os.path.abspath(__file__))))
@@ -41,7 +41,7 @@ m = {
 }
 json.dump(m, open('/verif/MANIFEST.json', 'w'), indent=1)
 try:
-    sys.path.insert(0, '/opt/veriftools/pyvenv/lib/python3.11/site-packages')
+    pass
     import jsonschema
     jsonschema.validate(m, json.load(open('/root/.vp/MANIFEST.schema.json')))
     print('MANIFEST.json valid;', len(checks), 'checks,', len(na), 'not applicable')
